@@ -148,6 +148,7 @@ func NewWorld(cfg Config) *World {
 	}
 	w := &World{cfg: cfg, byGid: map[uint64]*Task{}, notify: make(chan struct{}, 1), siteSeq: map[string]int{},
 		SitePairs: map[string]struct{}{}}
+	w.Start = time.Now() // bubble clock: worlds are created inside the bubble
 	return w
 }
 
@@ -485,6 +486,7 @@ func (w *World) Run(done func() bool) End {
 				return EndViolation
 			}
 			w.mu.Lock()
+			opts = w.options() // the hook may have enabled something (scripted delivery)
 		}
 		idx, param := 0, 0
 		if len(opts) > 1 || opts[0].NParam > 0 {
